@@ -17,6 +17,9 @@ import Blue.Proofs.SpecBounds
 import Blue.Proofs.ScanSpec
 import Blue.Proofs.SeekKey
 import Blue.Proofs.FamilyExists
+import Blue.Proofs.ConcatSeekEffects
+import Blue.Proofs.SeekGeneral
+import Blue.Proofs.MergingDupPayload
 /-! # Property C11 — merging, concatenating, pruning, bounds and lazy cursors equal their definitions
 
 Property theorems only (the proofs live in `Blue/Proofs/{Merging*,Concat*,Bounds*,Pruning*,Lazy*,
@@ -43,11 +46,31 @@ Seek predicates: `seek(k)` is modelled as `Ref.seek pred` with `pred e = (key e 
 ask of `pred` only that it switches once from false to true along the list in question
 (hypotheses `Mono` / `PredMono` / `MonoAlong` / `SeekPred`), which "key ≥ k" does on any key-sorted
 list: `seek_key_mono`, `seek_key_predMono`, `seek_key_monoAlong`, `seek_key_seekPred` below.
-`Concat.seek` models the binary search over the children by its *probes' answers* (the last entry of
-a child satisfies the predicate or not) — the probes' side effects on the children (the real code
-leaves each probed child at its last entry: `seek_to_last; prev`) are not in the model, so
-"operation by operation" is, for this one operation, "result by result"; the child finally chosen is
-re-sought, and every later operation repositions the child it moves to.
+`Concat.seek` / `ConcatC.seek` model the binary search over the children by its *probes' answers* (the
+last entry of a child satisfies the predicate or not) without the probes' side effects on the
+children.  `ConcatS` (`Blue/Model/ConcatS.lean`) performs the probes as the code does
+(`reposition(probe); seek_to_last; prev` on the probed child, `seek_to_first` on the child left
+behind, the chosen child re-sought); `concat_seek_effects_invisible` proves that for every program
+the two show the same — a child's position is read only while it is the active child, and a child
+becomes active only through `seek_to_first` / `seek_to_last` / `seek` (block `ConcatSeekEffects`;
+holds for table cursors and lazy cursors over them: `concat_resets_ref`, `concat_resets_lazy`).
+
+Seek predicates other than "key ≥ k": the hypotheses of the concatenation, bounds and pruning
+theorems ARE closure along the list in question (`seek_closure_concat / _bounds / _pruning`); the
+merging theorem's global `Mono` is weakened to closure along the merged list
+(`seek_general_predicate`), with the transfer between the children's lists and the combined list
+(`concat_closure_iff`, `merging_closure_iff`) and counterexamples for predicates that are not closed
+(block `SeekGeneral`).
+
+One (key, timestamp) with DIFFERENT payloads in different children (not a state the store produces):
+block `MergingDupPayload` — the merging cursor shows every holder's copy, the (key, ts) sequence is
+still the reference merge with multiplicity and every entry shown is a child's
+(`merging_dup_payload_choice`); which holder comes first is decided by the heap (tie = swap), not
+by the child index, and differs between directions (`merging_dup_payload_example_*`); the scan
+stack's (key, ts) sequence is independent of the payloads as long as pruning and bounds read the
+compared part only (`scan_dup_payload_winner`), the payload returned can depend on the direction
+(`scan_dup_payload_example_differs`), and if the copies differ in being a TOMBSTONE even the set of
+keys returned does (`scan_dup_payload_example_tombstone`; no general theorem there).
 
 The merging theorems are stated over an owner-tagged merged list `M` (`Family` / `FamilyW`); that
 every family of strictly sorted children HAS such an `M` is `exists_familyW` / `exists_family`, and
@@ -61,8 +84,8 @@ open Blue.Cursor Blue.Cursor.Filtered
 /-- **Merging cursor = one cursor over the sorted union.**
     HYPOTHESIS (`Family`): the merged list `M` (entries tagged with the child that owns them) is
     strictly sorted, i.e. the children are sorted and **pairwise distinct in (key, timestamp)**.
-    The same entry in several children is `merging_refines_dups` below.  What stays outside every
-    theorem is the *malformed* case in which two children hold the same (key, ts) with DIFFERENT
+    The same entry in several children is `merging_refines_dups` below.  What stays outside this
+    theorem (see block `MergingDupPayload` at the end for what IS proved of it) is the *malformed* case in which two children hold the same (key, ts) with DIFFERENT
     payloads: then the comparator is not a strict total order on entries (two different entries,
     neither less than the other), and which child's value is shown depends on the heap's
     tie-breaking and can differ between the forward and the backward pass; the harness explores
@@ -542,6 +565,295 @@ example {E K : Type} [DecidableEq K] (cfg : PruneCfg E K) (xs : List E) :
 /-- `LRel` holds of the state `LazyCursor::new` leaves -/
 example (xs : List Nat) : LRel xs .first 0 := LRel.first
 
+-- BEGIN ConcatSeekEffects
+/-! ## `ConcatenatingCursor::seek`: the side effects of the probes on the children are invisible
+
+`ConcatS` (`Blue/Model/ConcatS.lean`) is `ConcatC` with `seek` as the code performs it: every probe of
+the binary search is `reposition(probe); seek_to_last; prev` ON the child (`self.position` moves to
+the probed child, the child left behind gets `seek_to_first`), and the answer is read with `key()`
+from the child's state.  `Resets C T`: `T` is a partial equivalence on the child's states ("states
+of a cursor over the same table"; `T c c` = well formed) that every operation preserves and that
+`seek_to_first / seek_to_last / seek` collapse (they forget where the child was) — true of table
+cursors (`concat_resets_ref`) and of lazy cursors over them (`concat_resets_lazy`). -/
+
+/-- **for every program — no condition on the seek predicates — the cursor that performs the
+    probes on the children shows what the cursor that only reads their answers shows** (entry and
+    error flag after every call), from any state whose children are well formed. -/
+theorem concat_seek_effects_invisible {E : Type} {C : Cur E} {T : C.σ → C.σ → Prop} (hT : Resets C T)
+    (m : ConcatC C) (hm : ∀ c ∈ m.cs, T c c) (ops : List (Op E)) :
+    (ConcatS.cur C).beh m ops = (ConcatC.cur C).beh m ops :=
+  Blue.Cursor.concat_seek_effects_invisible hT m hm ops
+
+/-- the invariant behind it: after any program the two cursors have the same active index and the
+    same active child; every other child is merely *a state of the same table* in both — its
+    position is not read before `seek_to_first` (next at the end of a child, `reposition`),
+    `seek_to_last` (prev at the start of a child, a probe) or `seek` (the chosen child) re-positions it -/
+theorem concat_seek_effects_invariant {E : Type} {C : Cur E} {T : C.σ → C.σ → Prop} (hT : Resets C T)
+    (m : ConcatC C) (hm : ∀ c ∈ m.cs, T c c) (ops : List (Op E)) :
+    let s := (ConcatS.cur C).runTo m ops
+    let c := (ConcatC.cur C).runTo m ops
+    s.position = c.position ∧ s.cs[s.position]? = c.cs[c.position]? ∧
+      ConcatEff.RelL T s.cs m.cs ∧ ConcatEff.RelL T c.cs m.cs :=
+  Blue.Cursor.concat_seek_effects_invariant hT m hm ops
+
+theorem concat_resets_ref {E : Type} : Resets (RefCur E) (fun a b => a.xs = b.xs) := resets_ref
+
+theorem concat_resets_lazy {E : Type} {C : Cur E} {T0 : C.σ → C.σ → Prop} (hT : Resets C T0) :
+    Resets (LazyC.cur C) (LazyEff.LazyT T0) := LazyEff.resets_lazy hT
+
+/-- composed with `concat_over`: the cursor WITH the probes' side effects, over tables … -/
+theorem concatS_refines {E : Type} {A : (E → Bool) → Prop} (rs : List (Ref E)) (hne : 0 < rs.length)
+    (hA : ∀ pred, A pred → PredMono (rs.map (·.xs)) pred) :
+    BehEq A (ConcatS.cur (RefCur E)) (ConcatC.new (RefCur E) rs) (RefCur E) ⟨(rs.map (·.xs)).flatten, 0⟩ :=
+  Blue.Cursor.concatS_refines rs hne hA
+
+/-- … and over lazy cursors (the shape of a level: `Concat(Lazy(file))`) -/
+theorem concatS_lazy_refines {E : Type} {A : (E → Bool) → Prop} (tables : List (List E)) (hne : 0 < tables.length)
+    (hA : ∀ pred, A pred → PredMono tables pred) :
+    BehEq A (ConcatS.cur (LazyC.cur (RefCur E))) (ConcatC.new (LazyC.cur (RefCur E)) (tables.map lazyKid))
+      (RefCur E) ⟨tables.flatten, 0⟩ :=
+  Blue.Cursor.concatS_lazy_refines tables hne hA
+
+/-- the side effects are real: the two models' STATES differ after a seek (child 1 was probed and
+    then re-set), their observations do not -/
+theorem concatS_state_differs :
+    let m0 : ConcatC (RefCur Nat) := ⟨[⟨[1], 1⟩, ⟨[2], 1⟩, ⟨[3], 1⟩, ⟨[4], 1⟩], 0⟩
+    let s := ConcatS.seek (RefCur Nat) (fun e => decide (e ≥ 3)) m0
+    let c := ConcatC.seek (RefCur Nat) (fun e => decide (e ≥ 3)) m0
+    (s.cs.map (·.pos), s.position) = ([0, 0, 1, 1], 2) ∧ (c.cs.map (·.pos), c.position) = ([0, 1, 1, 1], 2)
+      ∧ ConcatC.kv (RefCur Nat) s = some 3 ∧ ConcatC.kv (RefCur Nat) c = some 3 :=
+  Blue.Cursor.concatS_state_differs
+
+/-- non-vacuity: the theorem applies to children sitting anywhere and to a program that seeks,
+    leaves the sought child backwards and forwards, and it says something -/
+example :
+    (ConcatS.cur (RefCur Nat)).beh ⟨[⟨[1], 1⟩, ⟨[2], 1⟩, ⟨[], 0⟩, ⟨[3], 1⟩, ⟨[4], 1⟩], 0⟩
+        [.seek (fun e => decide (e ≥ 3)), .prev, .prev, .next, .next, .next]
+      = (some 4, true) := by
+  rw [concat_seek_effects_invisible concat_resets_ref _ (fun _ _ => rfl)]
+  decide +kernel
+
+/-- `concatS_lazy_refines` applies: lazy children `[1,2] [] [4,5]`, programs seeking with "≥ 4" -/
+example : BehEq (fun p => p = fun e => decide (e ≥ 4)) (ConcatS.cur (LazyC.cur (RefCur Nat)))
+    (ConcatC.new (LazyC.cur (RefCur Nat)) ([[1, 2], [], [4, 5]].map lazyKid)) (RefCur Nat)
+    ⟨([[1, 2], [], [4, 5]] : List (List Nat)).flatten, 0⟩ :=
+  concatS_lazy_refines [[1, 2], [], [4, 5]] (by decide) (by
+    intro pred hp
+    subst hp
+    rw [Blue.Cursor.SeekGeneral.predMono_iff, Blue.Cursor.SeekGeneral.upClosed_iff_pairwise]
+    decide)
+-- END ConcatSeekEffects
+
+-- BEGIN SeekGeneral
+/-! ## seek predicates in general: the exact closure condition per combinator
+
+`UpClosedAlong xs p`: along the list `xs`, once `p` holds it keeps holding.  Concatenation, bounds
+and pruning already ask exactly this of the list they are about (`seek_closure_concat`,
+`seek_closure_bounds`, `seek_closure_pruning`); merging asked for the GLOBAL `Mono lt p` and needs
+only closure along the merged list (`seek_general_predicate`).  How closure of the combined list
+relates to the children's lists: `concat_closure_iff` (each child closed + a boundary condition),
+`merging_closure_iff` (each child closed + monotone ACROSS children). -/
+open Blue.Cursor.SeekGeneral in
+theorem seek_closure_concat {E : Type} (L : List (List E)) (p : E → Bool) :
+    PredMono L p ↔ UpClosedAlong L.flatten p := predMono_iff L p
+
+open Blue.Cursor.SeekGeneral in
+theorem seek_closure_bounds {E : Type} (xs : List E) (p : E → Bool) :
+    MonoAlong xs p ↔ UpClosedAlong xs p := monoAlong_iff xs p
+
+open Blue.Cursor.SeekGeneral in
+theorem seek_closure_pruning {E K : Type} [DecidableEq K] (cfg : PruneCfg E K) (xs : List E) (p : E → Bool) :
+    SeekPred cfg xs p ↔ (∀ a b, cfg.key a = cfg.key b → p a = p b) ∧ UpClosedAlong xs p :=
+  seekPred_iff cfg xs p
+
+open Blue.Cursor.SeekGeneral in
+/-- concatenation: closed along the concatenation iff closed along every child and, for children
+    `i < j`, once `p` holds somewhere in child `i` it holds everywhere in child `j` -/
+theorem concat_closure_iff {E : Type} (L : List (List E)) (p : E → Bool) :
+    UpClosedAlong L.flatten p ↔ (∀ l ∈ L, UpClosedAlong l p) ∧ Boundary L p :=
+  Blue.Cursor.SeekGeneral.concat_closure_iff L p
+
+open Blue.Cursor.SeekGeneral in
+/-- a weakly sorted list: closed along the list iff monotone on its members -/
+theorem merged_closure_iff {E : Type} {lt : E → E → Bool} (st : StrictTotal lt) (M : List E)
+    (hM : M.Pairwise (fun a b => lt b a = false)) (p : E → Bool) :
+    UpClosedAlong M p ↔ MonoOn M lt p :=
+  Blue.Cursor.SeekGeneral.merged_closure_iff st M hM p
+
+open Blue.Cursor.SeekGeneral in
+/-- merging: interleaving preserves upward closure iff the predicate is also monotone across
+    children (`Cross`: for entries `a < b` of different children, `p a → p b`) -/
+theorem merging_closure_iff {E : Type} {lt : E → E → Bool} (st : StrictTotal lt) (tables : List (List E))
+    (hs : ∀ t ∈ tables, t.Pairwise (fun a b => lt a b = true)) (p : E → Bool) :
+    UpClosedAlong (mergedList lt tables) p ↔ (∀ t ∈ tables, UpClosedAlong t p) ∧ Cross tables lt p :=
+  Blue.Cursor.SeekGeneral.merging_closure_iff st tables hs p
+
+open Blue.Cursor.SeekGeneral in
+/-- **`merging_refines_tables` for ANY seek predicate closed along the merged list** (the global
+    `Mono lt pred` is not needed: the children evaluate the predicate on their own entries only) -/
+theorem seek_general_predicate {E : Type} {lt : E → E → Bool} (st : StrictTotal lt) (cs : List (Ref E))
+    (hs : ∀ c ∈ cs, c.xs.Pairwise (fun a b => lt a b = true)) (ops : List (Op E))
+    (hops : ∀ pred, Op.seek pred ∈ ops → UpClosedAlong (mergedList lt (cs.map (·.xs))) pred) :
+    (Merging.new lt cs).kv = (Ref.mk (mergedList lt (cs.map (·.xs))) 0).kv ∧
+    Merging.run lt (Merging.new lt cs) ops = Ref.run ⟨mergedList lt (cs.map (·.xs)), 0⟩ ops :=
+  Blue.Cursor.SeekGeneral.seek_general_predicate_along st cs hs ops hops
+
+/-- a predicate that is not closed breaks the refinement: merging `[1,4] [2,5]`, `p = {1, 5}` -/
+theorem seek_nonclosed_counterexample :
+    let pred : Nat → Bool := fun e => e == 1 || e == 5
+    Merging.run Blue.Cursor.SeekGeneral.natLt (Merging.new Blue.Cursor.SeekGeneral.natLt [⟨[1, 4], 0⟩, ⟨[2, 5], 0⟩])
+        [.seek pred, .next, .next] = [some 1, some 4, some 5]
+      ∧ Ref.run ⟨[1, 2, 4, 5], 0⟩ [.seek pred, .next, .next] = [some 1, some 2, some 4]
+      ∧ ¬ Blue.Cursor.SeekGeneral.UpClosedAlong (mergedList Blue.Cursor.SeekGeneral.natLt [[1, 4], [2, 5]]) pred :=
+  Blue.Cursor.SeekGeneral.seek_nonclosed_counterexample
+
+/-- closed along each child is not enough for merging -/
+theorem seek_closed_children_not_merge :
+    let pred : Nat → Bool := fun e => e == 1 || e == 4 || e == 5
+    Blue.Cursor.SeekGeneral.UpClosedAlong [1, 4] pred ∧ Blue.Cursor.SeekGeneral.UpClosedAlong [2, 5] pred
+      ∧ ¬ Blue.Cursor.SeekGeneral.Cross [[1, 4], [2, 5]] Blue.Cursor.SeekGeneral.natLt pred
+      ∧ ¬ Blue.Cursor.SeekGeneral.UpClosedAlong (mergedList Blue.Cursor.SeekGeneral.natLt [[1, 4], [2, 5]]) pred
+      ∧ Merging.run Blue.Cursor.SeekGeneral.natLt (Merging.new Blue.Cursor.SeekGeneral.natLt [⟨[1, 4], 0⟩, ⟨[2, 5], 0⟩])
+          [.seek pred, .next] = [some 1, some 4]
+      ∧ Ref.run ⟨[1, 2, 4, 5], 0⟩ [.seek pred, .next] = [some 1, some 2] :=
+  Blue.Cursor.SeekGeneral.closed_children_not_merge
+
+/-- … and the concatenating cursor: children `[1,2] [4,5]`, `p = {1, 5}` -/
+theorem seek_nonclosed_counterexample_concat :
+    let pred : Nat → Bool := fun e => e == 1 || e == 5
+    Concat.run (Concat.new [⟨[1, 2], 0⟩, ⟨[4, 5], 0⟩]) [.seek pred, .next, .next] = [some 5, none, none]
+      ∧ Ref.run ⟨[1, 2, 4, 5], 0⟩ [.seek pred, .next, .next] = [some 1, some 2, some 4]
+      ∧ ¬ PredMono [[1, 2], [4, 5]] pred :=
+  Blue.Cursor.SeekGeneral.seek_nonclosed_counterexample_concat
+
+/-- non-vacuity of `seek_general_predicate`: "at least 4, except 7" is NOT `Mono` on `Nat`, yet
+    closed along the merge of `[1,4] [2,5]`; the theorem gives the refinement for every program
+    seeking with it -/
+example : ¬ Mono natLt (fun e => decide (4 ≤ e) && e != 7) := by
+  intro h
+  exact absurd (h 4 7 (by decide) (by decide)) (by decide)
+
+example (ops : List (Op Nat))
+    (hops : ∀ pred, Op.seek pred ∈ ops → pred = fun e => decide (4 ≤ e) && e != 7) :
+    Merging.run natLt (Merging.new natLt [⟨[1, 4], 0⟩, ⟨[2, 5], 0⟩]) ops
+      = Ref.run ⟨mergedList natLt [[1, 4], [2, 5]], 0⟩ ops :=
+  (seek_general_predicate natLt_strictTotal [⟨[1, 4], 0⟩, ⟨[2, 5], 0⟩] (by decide) ops
+    (by
+      intro pred hp
+      rw [hops pred hp]
+      show Blue.Cursor.SeekGeneral.UpClosedAlong (mergedList natLt [[1, 4], [2, 5]]) _
+      rw [show mergedList natLt [[1, 4], [2, 5]] = [1, 2, 4, 5] from Blue.Cursor.SeekGeneral.merged_14_25]
+      rw [Blue.Cursor.SeekGeneral.upClosed_iff_pairwise]
+      decide)).2
+
+/-- `concat_closure_iff`, both sides true on a concrete instance -/
+example : Blue.Cursor.SeekGeneral.UpClosedAlong ([[1, 2], [], [4, 5]] : List (List Nat)).flatten (fun e => decide (e ≥ 4))
+    ∧ Blue.Cursor.SeekGeneral.Boundary ([[1, 2], [], [4, 5]] : List (List Nat)) (fun e => decide (e ≥ 4)) := by
+  constructor
+  · rw [Blue.Cursor.SeekGeneral.upClosed_iff_pairwise]; decide
+  · unfold Blue.Cursor.SeekGeneral.Boundary; decide
+-- END SeekGeneral
+
+-- BEGIN MergingDupPayload
+/-! ## the malformed case: one (key, timestamp) with DIFFERENT payloads in different children
+
+Entries are `K × P`: `K` the compared part (key, timestamp), `P` the payload (value bytes / tombstone),
+which `Comparator::is_less` never reads (`DupPayload.ltP ltK a b = ltK a.1 b.1`).  The merging cursor
+does NOT collapse duplicates: every holder's copy is shown, in a row.  Which copy comes first is
+decided by the implicit heap — `percolate_down` SWAPS on a tie (merging_cursor.rs:107-115) and takes
+the right child when the left is not less (96-106) — not by the child index, and it can differ
+between the directions and with the history of calls (examples below). -/
+open DupPayload in
+/-- **what the merging cursor does on equal (key, ts) with different payloads**: for ANY children
+    whose `K` projections are strictly sorted (payloads arbitrary) and every program whose seek
+    predicates read `K` only, the shown (key, ts) sequence is the reference merge WITH multiplicity
+    of the projected children, and every entry shown, payload included, is an entry of a child. -/
+theorem merging_dup_payload_choice {K P : Type} {ltK : K → K → Bool} (st : StrictTotal ltK)
+    (cs : List (Ref (K × P)))
+    (hs : ∀ c ∈ cs, (c.xs.map Prod.fst).Pairwise (fun a b => ltK a b = true))
+    (opsK : List (Op K)) (hops : ∀ pred, Op.seek pred ∈ opsK → Mono ltK pred) :
+    (Merging.new (ltP ltK) cs).kv.map Prod.fst
+        = (Ref.mk (mergedList ltK (cs.map (fun c => c.xs.map Prod.fst))) 0).kv ∧
+    (Merging.run (ltP ltK) (Merging.new (ltP ltK) cs) (opsK.map liftOp)).map (Option.map Prod.fst)
+        = Ref.run ⟨mergedList ltK (cs.map (fun c => c.xs.map Prod.fst)), 0⟩ opsK ∧
+    (∀ e, some e ∈ Merging.run (ltP ltK) (Merging.new (ltP ltK) cs) (opsK.map liftOp) →
+        ∃ c ∈ cs, e ∈ c.xs) :=
+  Blue.Cursor.merging_dup_payload_choice st cs hs opsK hops
+
+open DupPayload in
+/-- two children holding only key 1 (payloads 10, 20): the second child's copy is first forward AND
+    first backward — the backward walk is not the mirror of the forward walk -/
+theorem merging_dup_payload_example_same :
+    walk [mk [(1,10)], mk [(1,20)]] fwd4 = [none, some (1,20), some (1,10), none, none] ∧
+    walk [mk [(1,10)], mk [(1,20)]] bwd4 = [none, some (1,20), some (1,10), none, none] :=
+  DupPayload.merging_dup_payload_example_same
+
+open DupPayload in
+/-- A = [0, 1], B = [1]: B's copy first forward, A's copy first backward -/
+theorem merging_dup_payload_example_mirror :
+    walk [mk [(0,9),(1,10)], mk [(1,20)]] fwd4 = [none, some (0,9), some (1,20), some (1,10), none] ∧
+    walk [mk [(0,9),(1,10)], mk [(1,20)]] bwd4 = [none, some (1,10), some (1,20), some (0,9), none] :=
+  DupPayload.merging_dup_payload_example_mirror
+
+open DupPayload in
+/-- A = [1], B = [0, 1]: now A's copy is first forward: the winner is not a function of the index -/
+theorem merging_dup_payload_example_index :
+    walk [mk [(1,10)], mk [(0,19),(1,20)]] fwd4 = [none, some (0,19), some (1,10), some (1,20), none] ∧
+    walk [mk [(1,10)], mk [(0,19),(1,20)]] bwd4 = [none, some (1,20), some (1,10), some (0,19), none] :=
+  DupPayload.merging_dup_payload_example_index
+
+open DupPayload in
+/-- **the scan stack Bounds(Pruning(Merging[children]))**: when the pruning and bounds
+    configurations read the `K` part only (the copies may differ in value bytes, not in being a
+    tombstone), the (key, ts) sequence a scan shows under every program is that of the stack over the
+    projected children — the stack `scan_stack_dups` / `scan_spec_dups` describe; no hypothesis on
+    the children, the order or the program.  Payloads and tie-breaking decide only WHICH holder's
+    payload is shown (under `FamilyW` all holders' copies are identical and the choice is immaterial). -/
+theorem scan_dup_payload_winner {K P K' : Type} [DecidableEq K'] (ltK : K → K → Bool)
+    (pcfg : PruneCfg K K') (bcfg : BoundsCfg K) (fuel : Nat) (cs : List (Ref (K × P)))
+    (opsK : List (Op K)) :
+    (obs (BoundsC.cur (PruningC.cur (MergingC.cur (RefCur (K × P)) (ltP ltK)) (liftCfg Prod.fst pcfg) fuel)
+            (liftBCfg Prod.fst bcfg) fuel)
+        (BoundsC.new (PruningC.cur (MergingC.cur (RefCur (K × P)) (ltP ltK)) (liftCfg Prod.fst pcfg) fuel)
+          (liftBCfg Prod.fst bcfg)
+          (PruningC.new (MergingC.cur (RefCur (K × P)) (ltP ltK))
+            (MergingC.new (RefCur (K × P)) (ltP ltK) cs)))
+        (opsK.map liftOp)).map (Option.map Prod.fst)
+      = obs (BoundsC.cur (PruningC.cur (MergingC.cur (RefCur K) ltK) pcfg fuel) bcfg fuel)
+          (BoundsC.new (PruningC.cur (MergingC.cur (RefCur K) ltK) pcfg fuel) bcfg
+            (PruningC.new (MergingC.cur (RefCur K) ltK) (MergingC.new (RefCur K) ltK (cs.map proj))))
+          opsK :=
+  Blue.Cursor.scan_dup_payload_winner ltK pcfg bcfg fuel cs opsK
+
+open DupPayload in
+/-- Pruning(Merging) over two children holding only key 1 (payloads 10, 20): the forward scan
+    returns 10, the backward scan 20 — the payload a scan returns for a key depends on the direction -/
+theorem scan_dup_payload_example_differs :
+    scan [mk [(1,10)], mk [(1,20)]] fwd4 = [none, some (1,10), none, none, none] ∧
+    scan [mk [(1,10)], mk [(1,20)]] bwd4 = [none, some (1,20), none, none, none] :=
+  DupPayload.scan_dup_payload_example_differs
+
+open DupPayload in
+/-- outside `scan_dup_payload_winner` (the tombstone flag reads the payload): one child holds key 1
+    as a tombstone, the other with value 20, same timestamp: forward the key is deleted, backward it
+    is present; with the children swapped the other way round — even the SET of keys depends on the
+    direction and on tie-breaking -/
+theorem scan_dup_payload_example_tombstone :
+    scanT [mk [(1,0)], mk [(1,20)]] fwd4 = [none, none, none, none, none] ∧
+    scanT [mk [(1,0)], mk [(1,20)]] bwd4 = [none, some (1,20), none, none, none] ∧
+    scanT [mk [(1,20)], mk [(1,0)]] fwd4 = [none, some (1,20), none, none, none] ∧
+    scanT [mk [(1,20)], mk [(1,0)]] bwd4 = [none, none, none, none, none] :=
+  DupPayload.scan_dup_payload_example_tombstone
+
+/-- non-vacuity of `merging_dup_payload_choice`: children `[(0,9),(1,10)] [(1,20)]` (key 1 with two
+    payloads), every program: the keys shown are those of the cursor over `[0, 1, 1]` -/
+example (opsK : List (Op Nat)) (hops : ∀ pred, Op.seek pred ∈ opsK → Mono natLt pred) :
+    (Merging.run (DupPayload.ltP natLt) (Merging.new (DupPayload.ltP natLt) [⟨[(0,9),(1,10)], 0⟩, ⟨[(1,20)], 0⟩])
+        (opsK.map DupPayload.liftOp)).map (Option.map Prod.fst)
+      = Ref.run ⟨mergedList natLt [[0, 1], [1]], 0⟩ opsK :=
+  (merging_dup_payload_choice (P := Nat) natLt_strictTotal [⟨[(0,9),(1,10)], 0⟩, ⟨[(1,20)], 0⟩] (by decide) opsK hops).2.1
+-- END MergingDupPayload
+
 end Blue.Props.C11
 
 #print axioms Blue.Props.C11.merging_refines
@@ -583,3 +895,27 @@ end Blue.Props.C11
 #print axioms Blue.Props.C11.bounds_prevOld_counterexample
 #print axioms Blue.Props.C11.concat_nextOld_counterexample
 #print axioms Blue.Props.C11.concat_seekOld_counterexample
+#print axioms Blue.Props.C11.concat_seek_effects_invisible
+#print axioms Blue.Props.C11.concat_seek_effects_invariant
+#print axioms Blue.Props.C11.concat_resets_ref
+#print axioms Blue.Props.C11.concat_resets_lazy
+#print axioms Blue.Props.C11.concatS_refines
+#print axioms Blue.Props.C11.concatS_lazy_refines
+#print axioms Blue.Props.C11.concatS_state_differs
+#print axioms Blue.Props.C11.seek_closure_concat
+#print axioms Blue.Props.C11.seek_closure_bounds
+#print axioms Blue.Props.C11.seek_closure_pruning
+#print axioms Blue.Props.C11.concat_closure_iff
+#print axioms Blue.Props.C11.merged_closure_iff
+#print axioms Blue.Props.C11.merging_closure_iff
+#print axioms Blue.Props.C11.seek_general_predicate
+#print axioms Blue.Props.C11.seek_nonclosed_counterexample
+#print axioms Blue.Props.C11.seek_closed_children_not_merge
+#print axioms Blue.Props.C11.seek_nonclosed_counterexample_concat
+#print axioms Blue.Props.C11.merging_dup_payload_choice
+#print axioms Blue.Props.C11.merging_dup_payload_example_same
+#print axioms Blue.Props.C11.merging_dup_payload_example_mirror
+#print axioms Blue.Props.C11.merging_dup_payload_example_index
+#print axioms Blue.Props.C11.scan_dup_payload_winner
+#print axioms Blue.Props.C11.scan_dup_payload_example_differs
+#print axioms Blue.Props.C11.scan_dup_payload_example_tombstone
